@@ -625,10 +625,17 @@ class ASTListener(ModelicaListener):
         # (ComponentRef) object until we can fill it.
         clause.type.__dict__.update(self.ast[ctx.type_specifier()].__dict__)
         if ctx.array_subscripts() is not None:
-            clause.dimensions = [self.ast[ctx.array_subscripts()]]
+            type_dimensions = self.ast[ctx.array_subscripts()]
             for sym in self.comp_clause.symbol_list:
                 s = self.class_node.symbols[sym.name]
-                s.dimensions = clause.dimensions
+                if s.dimensions is clause.dimensions:
+                    # No subscripts on the declarator itself
+                    s.dimensions = [list(type_dimensions)]
+                else:
+                    # "Real[3] v[2]" declares v[2, 3]: the declarator's own
+                    # subscripts come first, then those of the type
+                    s.dimensions = [s.dimensions[0] + type_dimensions]
+            clause.dimensions = [type_dimensions]
 
         # We make sure that all references to the objects are unique per
         # symbol making copies. Note that if there is only one symbol in the
